@@ -997,6 +997,14 @@ def b_getattr(I, args, kwargs):
     return I.getattr(obj, name)
 
 
+def b_setattr(I, args, kwargs):
+    obj, name, value = args[0], args[1], args[2]
+    if not isinstance(name, str):
+        raise Unsupported("setattr with symbolic name")
+    I.setattr(obj, name, value)
+    return None
+
+
 def b_hasattr(I, args, kwargs):
     try:
         I.getattr(args[0], args[1])
@@ -1216,7 +1224,7 @@ def builtin_table(I):
         "len": b_len, "bytes": b_bytes, "bytearray": b_bytearray, "isinstance": b_isinstance, "type": b_type,
         "range": b_range, "min": b_minmax("min"), "max": b_minmax("max"), "abs": b_abs, "divmod": b_divmod, "next": b_next,
         "iter": b_iter, "enumerate": b_enumerate, "zip": b_zip, "list": b_list, "tuple": b_tuple, "dict": b_dict, "set": b_set,
-        "any": b_any, "all": b_all, "callable": b_callable, "getattr": b_getattr, "hasattr": b_hasattr,
+        "any": b_any, "all": b_all, "callable": b_callable, "getattr": b_getattr, "setattr": b_setattr, "hasattr": b_hasattr,
         "int": b_int, "bool": b_bool, "str": b_str, "repr": b_repr, "hash": b_hash, "id": b_id,
         "sorted": b_sorted, "sum": b_sum, "super": b_super, "print": b_print, "frozenset": b_frozenset,
         "fut_state": b_fut_state, "fut_done": b_fut_done, "fut_result": b_fut_result, "fut_exc": b_fut_exc,
